@@ -247,15 +247,26 @@ func (h *handler) startSending(ctx context.Context) {
 		}
 	}()
 
+	// A peer that stops reading must not hold this goroutine, and through the full queue every
+	// participant that broadcasts to it, for longer than an idle client is tolerated. Once a
+	// write has failed the connection is going down: the queue is kept moving (messages are
+	// dropped) until the main loop has run the disconnection, so that nobody blocks on it.
+	failed := false
 	for {
 		select {
 		case <-ctx.Done():
 			return
 
 		case msg := <-h.sendChan:
+			if failed {
+				continue
+			}
+			if timeout := h.Handler.IdleTimeout(); timeout > 0 {
+				h.Conn.SetWriteDeadline(time.Now().Add(timeout))
+			}
 			if _, err := h.sender(msg); err != nil {
 				h.disconnect(errors.New("sending message failed").Wrap(err))
-				return
+				failed = true
 			}
 		}
 	}
